@@ -41,14 +41,15 @@ def full_spec(optional=True):
                  "gap_model": "flow", "bypass_fraction": 0.05},
         "assemblies": {"R3": a0, "R4": a1},
         "assignment": [["R3", 1, 1, 1, {"FLOWRATE": 1.7}], ["R4", 2, 1, 1, {"OUTLET_TEMP": 700.0}],
-                       ["R3", 2, 3, 3, {"DELTA_TEMP": 60.0}], ["R4", 2, 5, 5, {"FLOWRATE": 2.9}]],
+                       ["R3", 2, 3, 4, {"DELTA_TEMP": 60.0}], ["R4", 2, 5, 6, {"FLOWRATE": 2.9}]],   # lines spanning 2 positions
         "power": {"total_power": 4.0e5, "files": [{}]}}
     from .. import geom
     for row in spec["assignment"]:
-        idx = 0 if row[1] == 1 else 3 * (row[1] - 1) * (row[1] - 2) + row[2]
-        n_pin = geom.counts(T[row[0]][1]["n_ring"])[0]
-        spec["power"]["files"][0][str(idx + 1)] = {"zb": [0.0, 0.4, L], "pins": {
-            "n": n_pin, "base": [[300.0, 100.0], [500.0, -200.0]], "amp": [0.3, 0.1], "freq": [0.7, 1.3], "phase": [0.2, 1.0]}}
+        for pos in range(row[2], row[3] + 1):
+            idx = 0 if row[1] == 1 else 3 * (row[1] - 1) * (row[1] - 2) + pos
+            n_pin = geom.counts(T[row[0]][1]["n_ring"])[0]
+            spec["power"]["files"][0][str(idx + 1)] = {"zb": [0.0, 0.4, L], "pins": {
+                "n": n_pin, "base": [[300.0, 100.0], [500.0, -200.0]], "amp": [0.3, 0.1], "freq": [0.7, 1.3], "phase": [0.2, 1.0]}}
     if optional:
         a0["AxialRegion"]["lower"].update({"hydraulic_diameter": 0.0123, "epsilon": 2.5e-5})
         a0["AxialRegion"]["upper"].update({"hydraulic_diameter": 0.0071, "epsilon": 1.0e-5, "convection_factor": 0.7})
@@ -136,7 +137,8 @@ def run_sweep(spec):
         c.resolve_length()
         si = copy.deepcopy(c.spec)
     other = units.convert(si, u["length"], u["temperature"], u["mass"], u["time"], u.get("spelling", 0))
-    o.classes.update({"length": u["length"], "temperature": u["temperature"], "mfr": "%s/%s" % (u["mass"], u["time"])})
+    o.classes.update({"length": u["length"], "temperature": u["temperature"], "mfr": "%s/%s" % (u["mass"], u["time"]),
+                      "multi_position_lines": bool(spec.get("_merged_lines"))})
     res = []
     for sp in (si, other):
         with drive.Case(sp) as c:
@@ -156,9 +158,10 @@ def run_sweep(spec):
         dz = float(np.max(np.abs(z0 - z1)))
         o.metric("plane_deviation_m", dz)
         o.check(dz <= 1e-12, "axial_planes_differ", "%.3e m" % dz)
-        dt = float(np.max(np.abs(t0 - t1)))
-        o.metric("temperature_deviation_K", dt)
-        o.check(dt <= 1e-8, "temperatures_differ", "%.3e K" % dt)
+        if o.check(t0.shape == t1.shape, "temperature_fields_differ_in_shape", "%s vs %s" % (t0.shape, t1.shape)):
+            dt = float(np.max(np.abs(t0 - t1)))
+            o.metric("temperature_deviation_K", dt)
+            o.check(dt <= 1e-8, "temperatures_differ", "%.3e K" % dt)
     o.check(max(abs(a - b) / max(abs(a), 1e-300) for a, b in zip(f0, f1)) <= 1e-12, "flow_rates_differ")
     o.check(max(abs(a - b) / max(abs(a), 1e-300) for a, b in zip(p0, p1)) <= 1e-9, "pressure_drops_differ")
     o.nontrivial = not (u["length"] == "m" and u["temperature"] == "kelvin" and (u["mass"], u["time"]) == ("kg", "s"))
@@ -222,6 +225,9 @@ def generated(draw, q):
     spec["_units"] = {"length": draw(st.sampled_from(list(units.LENGTH))), "temperature": draw(st.sampled_from(units.TEMP)),
                       "mass": draw(st.sampled_from(list(units.MASS))), "time": draw(st.sampled_from(list(units.TIME))),
                       "spelling": draw(st.integers(0, 2))}
+    if draw(st.booleans()):
+        spec["power"]["total_power"] = None      # (the flows of merged lines no longer match the drawn temperature rises)
+        spec["_merged_lines"] = gen.merge_assignment_lines(spec)
     return spec
 
 
